@@ -482,6 +482,9 @@ class ExecBase:
         def k(p1, vs):
             a, b = vs
             op = type(n.op)
+            hook = s.unit.methods.get((a.get("ty"), "__binop__"))
+            if hook is not None:
+                return hook(s, p1, [a, b], {"op": op.__name__}, n)
             if op is ast.Add:
                 if a.get("ty") == "str" or b.get("ty") == "str":
                     content = Concat(s.to_string(p1, a), s.to_string(p1, b)) if s.precise_strings else None
